@@ -12,6 +12,7 @@ BARE_LT = re.compile(r'^([ \t]*(?:LONGTITLE|CROSSHEADING(?:\.[^ \n|{}.]*)*(?:\{[
 
 def classify(text, root, err):
     k, tag, parent, msg = err['kind'], err['tag'], err['parent'], err['msg']
+    text = text.strip()   # what pre_parse does first (any str.isspace character, not only blanks and tabs)
     if k == 'unexpected-element':
         if parent == 'li' and tag in ('blockList', 'table', 'block', 'blockContainer', 'tblock', 'foreign'):
             return 'F5'
